@@ -141,6 +141,9 @@ class State:
         self.entry_id = 0
         self.alloc_count = {}
         self.decided = {}
+        self.frames = []      # suspended callers while the body of a function without a contract is executed in line
+        self.cur_f = None     # the function being executed (None: the function under verification)
+        self.frame_tag = ""   # distinguishes allocation sites / call sites of in-line executed bodies
 
     def fork(self):
         s = State(self.run)
@@ -164,6 +167,9 @@ class State:
         s.alloc_count = dict(self.alloc_count)
         s.entry_id = self.entry_id
         s.decided = dict(self.decided)
+        s.frames = [dict(fr, regs=dict(fr["regs"]), localobj=dict(fr["localobj"]), localname=dict(fr["localname"])) for fr in self.frames]
+        s.cur_f = self.cur_f
+        s.frame_tag = self.frame_tag
         return s
 
     def oblige(self, kind, site, goal, descr=""):
@@ -486,6 +492,7 @@ class FuncRun:
         return oid
 
     def site_oid(self, st, base, site):
+        site = st.frame_tag + str(site)
         n = st.alloc_count.get(site, 0) + 1
         st.alloc_count[site] = n
         return "%s#%s.%d" % (base, site, n)
@@ -529,6 +536,13 @@ class FuncRun:
     def fresh_value(self, st, t, name):
         prog = self.prog
         ii = prog.int_info(t)
+        if ii and ii == (8, False) and self.mode == "lia" and "bitbytes" in self.c.opts:
+            # a byte as the sum of its eight bits (every byte has exactly one such representation): bit slices at
+            # concrete offsets become exact linear terms, no quotient/remainder pairs are needed
+            tot = Poly.const(0)
+            for i in range(8):
+                tot = tot + self.dom.fresh(st, "%s.bit%d" % (name, i), 8, False, 0, 1) * Poly.const(1 << i)
+            return tot
         if ii:
             return self.dom.fresh(st, name, ii[0], ii[1])
         if prog.is_bool(t):
@@ -1015,14 +1029,50 @@ class FuncRun:
                 env[k_[6:]] = v_
         return env
 
+    def push_frame(self, st, callee, args, ins):
+        """execute the body of a function that has no contract in line (a helper introduced by a refactoring):
+        the caller is suspended, the callee's parameters are bound to the arguments; loops of the callee must
+        unroll (there is no contract to carry an invariant)"""
+        if len(st.frames) >= 6 or any(fr["callee"] == callee["name"] for fr in st.frames):
+            raise Unsupported("recursive or too deep in-line execution of %s" % callee["name"])
+        if not callee.get("hasBody") or not callee.get("blocks"):
+            raise Unsupported("call of %s, which has neither a contract nor a body" % callee["name"])
+        st.frames.append({"f": st.cur_f, "block": st.block, "prev": st.prev, "pc": st.pc, "regs": st.regs,
+                          "localobj": st.localobj, "localname": st.localname, "ins": ins, "tag": st.frame_tag,
+                          "callee": callee["name"]})
+        st.cur_f = callee
+        st.frame_tag = st.frame_tag + "%s@%s/" % (callee["short"], ins.get("reg"))
+        st.regs = {}
+        for p, a in zip(callee["params"], args):
+            st.regs[p["name"]] = a
+        st.localobj = {}
+        st.localname = {}
+        st.block, st.prev, st.pc = 0, None, 0
+        self.V.inlined.add((self.fname, callee["name"]))
+
+    def pop_frame(self, st, vals):
+        fr = st.frames.pop()
+        st.cur_f = fr["f"]
+        st.frame_tag = fr["tag"]
+        st.regs = fr["regs"]
+        st.localobj = fr["localobj"]
+        st.localname = fr["localname"]
+        st.block, st.prev, st.pc = fr["block"], fr["prev"], fr["pc"]
+        reg = fr["ins"].get("reg")
+        if reg:
+            st.regs[reg] = None if not vals else vals[0] if len(vals) == 1 else tuple(vals)
+
     def exec_path(self, st, work):
-        f = self.f
-        blocks = f["blocks"]
         while True:
+            f = st.cur_f or self.f
+            blocks = f["blocks"]
             b = blocks[st.block]
-            if st.pc == 0 and st.block in self.loop_heads:
+            if st.pc == 0 and not st.frames and st.block in self.loop_heads:
                 self.at_loop_head(st)
+            depth = len(st.frames)
             while st.pc < len(b["instrs"]):
+                if len(st.frames) != depth:
+                    break   # a call entered a body in line: continue there
                 ins = b["instrs"][st.pc]
                 st.pc += 1
                 st.fuel += 1
@@ -1048,6 +1098,9 @@ class FuncRun:
                     self.goto(st, b["succs"][0])
                     break
                 if op == "Return":
+                    if st.frames:
+                        self.pop_frame(st, [self.val(st, r) for r in ins["results"]])
+                        break
                     self.at_return(st, [self.val(st, r) for r in ins["results"]], ins)
                     return
                 if op == "Panic":
@@ -1055,7 +1108,8 @@ class FuncRun:
                     return
                 self.step(st, ins)
             else:
-                raise VerifError("fell off block %d" % st.block)
+                if len(st.frames) == depth:
+                    raise VerifError("fell off block %d" % st.block)
 
     def goto(self, st, target):
         st.prev = st.block
@@ -1217,7 +1271,9 @@ class FuncRun:
             if dead(ck[0]):
                 continue
             same = all(_same(s_.mem.get(ck, _MISSING), v0) for s_ in states[1:])
-            if same and (ck in keep or ck not in allowed):
+            if same:
+                # every arrival holds the same value: the merged state holds it too (a cut is merged once, after all
+                # of its arrivals are parked -- nothing is generalised over iterations)
                 newmem[ck] = v0
             elif ck in allowed:
                 lt = self.loc_type(ck[0], ck[1])
@@ -1300,6 +1356,7 @@ class FuncRun:
                     h = True
                 st.assume(h)
                 self.V.assumed.add((self.fname, lab or "", e))
+        st_cover = st   # reachability is judged before any postcondition is chained in as a hypothesis
         chain = self.mode in ("ring", "group") or "chainposts" in self.c.opts
         for i, (lab, ast, txt) in enumerate(list(self.c.ensures_body) + list(self.c.ensures)):
             g = ev.bool(ast)
@@ -1333,7 +1390,7 @@ class FuncRun:
                 self.add_named(st, "frame", "frame.%s%s" % (self.objs[key[0]].name, self.prog.path_name(self.objs[key[0]].ty, key[1]) if not self.objs[key[0]].lazy else str(list(key[1]))), ins.get("pos", ""), g, "location outside `assigns` keeps its value")
         else:
             self.add_named(st, "frame", "frame", ins.get("pos", ""), True, "every location outside `assigns` is syntactically unchanged")
-        self.add_named(st, "cover", "cover.return", ins.get("pos", ""), "COVER", "this return is reachable")
+        self.add_named(st_cover, "cover", "cover.return", ins.get("pos", ""), "COVER", "this return is reachable")
 
     def lemma_instance(self, ev, txt):
         import re as _re
@@ -1539,7 +1596,7 @@ class FuncRun:
             st.regs[reg] = FuncV(ins["fn"]["n"], [self.val(st, b) for b in ins["bindings"]])
             return
         if op == "Phi":
-            blk = self.f["blocks"][st.block]
+            blk = (st.cur_f or self.f)["blocks"][st.block]
             idx = blk["preds"].index(st.prev)
             st.regs[reg] = self.val(st, ins["edges"][idx])
             return
